@@ -64,4 +64,37 @@ func init() {
 		},
 		NeedInst: []string{"pkg/ratelimiter/store/flowcontrol/maxinflight.go"},
 	})
+	reg(&Check{
+		ID:    "C05",
+		Title: "Local max-in-flight: never more than M admitted and unfinished; slots never leak",
+		Batches: []Batch{
+			{World: "ilv", Profile: "c05-static", Quick: 1500, Thor: 60000, PerProc: 250, FaultFree: true},
+			{World: "ilv", Profile: "c05-reconf", Quick: 3000, Thor: 120000, PerProc: 250},
+		},
+		Rule: "each run = drawn workload (2-4 request threads doing GetOrDefault/TryAcquire/Release exactly like the dispatcher, one configuration thread issuing Sync with resizes, type changes, delete/re-add; bystander schema and cluster) under one drawn statement-level schedule; distinct = distinct trace hash; non-trivial = operations overlapped AND at least one request was refused (the bound was reached)",
+		Real: []string{"pkg/flowcontrols (UpstreamLimiter, syncLocalFlowControls), pkg/flowcontrols/remote (FlowControlCache, localWrapper, meterWrapper), pkg/flowcontrols/flowcontrol, github.com/zoumo/golib/lock/maxinflight atomicTokenBucket — all yield-instrumented copies of the current tree", "pkg/flowcontrols/util Meter (background statistics goroutines, uninstrumented, real time)"},
+		Stub: []string{"request/configuration threads, the cooperative scheduler"},
+		Assume: []string{
+			"interleaving at statement granularity of the instrumented functions; sequentially consistent atomics",
+			"the gw world (HTTP exit paths: upstream error, no ready endpoint, client abort, panic) complements this check once built",
+			"a clean batch is evidence, not proof",
+		},
+		NeedInst: []string{"pkg/flowcontrols/flowcontrol/flowcontrol.go", "pkg/flowcontrols/remote/flowcontrol_wrapper.go", "pkg/flowcontrols/limiter.go", GolibModule + "/" + GolibTarget.File},
+	})
+	reg(&Check{
+		ID:    "C14",
+		Title: "Round-robin: ready endpoints of a policy share its traffic evenly",
+		Batches: []Batch{
+			{World: "ilv", Profile: "c14-rr", Quick: 3000, Thor: 100000, PerProc: 250, FaultFree: true},
+		},
+		Rule: "each run = drawn cluster (1-5 endpoints, explicit subset in drawn order or all endpoints with tape-permuted map order), 1-3 concurrent picker threads of the measured policy, 0-2 other pickers over the same endpoints (second policy, PickOne as used by authentication), 1-3 stretches with a readiness change in between, under a drawn statement-level schedule of Pop(); distinct = distinct trace hash; non-trivial = at least 4 measured picks over at least 2 endpoints",
+		Real: []string{"pkg/clusters ClusterInfo (CreateClusterInfo, Sync, MatchAttributes, PickOne, endpointPickStrategy.Pop yield-instrumented), EndpointInfo status"},
+		Stub: []string{"picker threads; endpoint health set directly through EndpointInfo.UpdateStatus (no probes in this world)"},
+		Assume: []string{
+			"consecutive picks under concurrency are delimited by quiescent points (all pickers between operations); with one picker every window is checked",
+			"all-endpoints policy: allowed deviation k! (one cursor per distinct map ordering), k <= 3",
+			"a clean batch is evidence, not proof",
+		},
+		NeedInst: []string{"pkg/clusters/clusterinfo.go"},
+	})
 }
